@@ -23,7 +23,7 @@ func init() {
 		Run: runSafePrefixRoute,
 	})
 	register(&Rule{
-		ID: "C06.single-mark-layer", Prop: "C06", Also: []string{"C04"}, Floor: 3, Controls: 1,
+		ID: "C06.single-mark-layer", Prop: "C06", Also: []string{"C04"}, Floor: 1, Controls: 1,
 		Doc: "wherever a marker wrapper is built, the payload placed under it is unwrapped first: it is another marker's realV, or a payload that was tested not to be a marker on the path (a value carries at most one layer of marks)",
 		Run: runSingleMarkLayer,
 	})
@@ -644,7 +644,7 @@ func runSetProtocol(rr *RuleRun) {
 					}
 				}
 			case *ast.CallExpr:
-				if f := callee(info, x); f != nil && f.Name() == "Equivalent" && strings.Contains(funcKey(f), "Rules") {
+				if callsEquivalent(c, info, x, 2) {
 					equivCalls++
 				}
 			}
@@ -671,47 +671,88 @@ func runSetProtocol(rr *RuleRun) {
 			rr.OK(key, fd.Pos(), "bucket chosen by rules.Hash(value); members compared with rules.Equivalent")
 		}
 	}
-	// (3) Add appends only after the scan
+	// (3) Add appends only after the scan: a statement that (directly or through a helper of the package)
+	// compares with rules.Equivalent dominates the append, and a return lies between the two
 	if fd := rr.MustDecl(pkg, "Set.Add"); fd != nil {
-		var scan *ast.RangeStmt
+		g := c.CFG(fd.Body, info)
+		var scans []ast.Node
 		var appendAt ast.Node
-		for _, st := range fd.Body.List {
-			switch s := st.(type) {
-			case *ast.RangeStmt:
-				returnsOnEquiv := false
-				ast.Inspect(s.Body, func(n ast.Node) bool {
-					if ifs, ok := n.(*ast.IfStmt); ok {
-						if call, ok := ast.Unparen(ifs.Cond).(*ast.CallExpr); ok {
-							if f := callee(info, call); f != nil && f.Name() == "Equivalent" {
-								for _, b := range ifs.Body.List {
-									if _, ok := b.(*ast.ReturnStmt); ok {
-										returnsOnEquiv = true
-									}
-								}
-							}
-						}
-					}
-					return true
-				})
-				if returnsOnEquiv {
-					scan = s
+		var returns []*ast.ReturnStmt
+		inspectNoLit(fd.Body, func(n ast.Node) bool {
+			switch x := n.(type) {
+			case *ast.CallExpr:
+				if callsEquivalent(c, info, x, 2) {
+					scans = append(scans, x)
 				}
-			case *ast.AssignStmt:
-				ast.Inspect(s, func(n ast.Node) bool {
-					if call, ok := n.(*ast.CallExpr); ok && isBuiltin(info, call, "append") {
-						appendAt = s
+				if isBuiltin(info, x, "append") {
+					appendAt = x
+				}
+			case *ast.ReturnStmt:
+				returns = append(returns, x)
+			}
+			return true
+		})
+		key := pkg + ".Set.Add/append-after-scan"
+		ok := false
+		if appendAt != nil {
+			for _, sc := range scans {
+				if sc.Pos() >= appendAt.Pos() {
+					continue
+				}
+				// the scan (or the loop head it sits in) lies on every path to the append
+				dom := g.Dominates(sc, appendAt)
+				for p := c.Parent(sc); p != nil && !dom && p != ast.Node(fd.Body); p = c.Parent(p) {
+					if rs, isR := p.(*ast.RangeStmt); isR && g.Dominates(rs.X, appendAt) {
+						dom = true
 					}
-					return true
-				})
+					if fs, isF := p.(*ast.ForStmt); isF && fs.Cond != nil && g.Dominates(fs.Cond, appendAt) {
+						dom = true
+					}
+				}
+				if !dom {
+					continue
+				}
+				for _, r := range returns {
+					if r.Pos() > sc.Pos() && r.Pos() < appendAt.Pos() {
+						ok = true
+					}
+				}
 			}
 		}
-		key := pkg + ".Set.Add/append-after-scan"
-		if scan == nil || appendAt == nil {
-			rr.Violation(key, fd.Pos(), "Add no longer has the shape 'scan the bucket, return on an equivalent member, then append': a set could hold two equivalent members")
-		} else if scan.Pos() < appendAt.Pos() && c.CFG(fd.Body, info).Dominates(scan.X, appendAt) {
-			rr.OK(key, appendAt.Pos(), "the append is dominated by the completed equivalence scan")
-		} else {
-			rr.Violation(key, appendAt.Pos(), "the append does not come after the equivalence scan on every path")
+		switch {
+		case appendAt == nil || len(scans) == 0:
+			rr.Violation(key, fd.Pos(), "Add no longer scans the bucket with rules.Equivalent before appending: a set could hold two equivalent members")
+		case ok:
+			rr.OK(key, appendAt.Pos(), "the append is dominated by the equivalence scan, which returns on an equivalent member")
+		default:
+			rr.Violation(key, appendAt.Pos(), "the append is not dominated by an equivalence scan with an early return: a set could hold two equivalent members")
 		}
 	}
+}
+
+// callsEquivalent: the call is rules.Equivalent(...) or a call of a function of package set that (transitively) makes one.
+func callsEquivalent(c *Ctx, info *types.Info, call *ast.CallExpr, depth int) bool {
+	f := callee(info, call)
+	if f == nil {
+		return false
+	}
+	if f.Name() == "Equivalent" && strings.Contains(funcKey(f), "Rules") {
+		return true
+	}
+	if depth == 0 || f.Pkg() == nil || shortPkg(f.Pkg()) != "cty/set" {
+		return false
+	}
+	installFindFuncDecl(c)
+	cd := findFuncDecl(f)
+	if cd == nil || cd.Body == nil {
+		return false
+	}
+	found := false
+	ast.Inspect(cd.Body, func(n ast.Node) bool {
+		if cl, ok := n.(*ast.CallExpr); ok && !found && callsEquivalent(c, c.InfoFor(cd.Pos()), cl, depth-1) {
+			found = true
+		}
+		return !found
+	})
+	return found
 }
